@@ -950,7 +950,9 @@ Definition step_dispatch (r : raft) (m : message) : res (raft * err) :=
           match last_opt (m_entries m) with
           | Some e =>
               do r <- applied_to r (e_index e) (ents_size (m_entries m));
-              Ok (reduce_uncommitted_size r (payloads_size (m_entries m)), ENone)
+              (* only the entries of the leader's own term were counted (F14 repair) *)
+              Ok (reduce_uncommitted_size r
+                    (payloads_size (filter (fun x => N.eqb (e_term x) (r_term r)) (m_entries m))), ENone)
           | None => Ok (r, ENone)
           end
       | MsgVote | MsgPreVote =>
